@@ -251,10 +251,25 @@ func c17KeyTok(k []int) string {
 }
 
 // group column values: ga = "k<id>" (string, no '|', never empty), gb = id (int)
-func c17KeyOfResult(m map[string]any, ncols int) string {
+func c17KeyOfResult(m map[string]any, ncols int, special bool) string {
 	k := make([]string, 0, ncols)
 	for c := 0; c < ncols; c++ {
 		v, ok := m[c17Cols[c]]
+		if special && c == 0 {
+			switch {
+			case !ok || v == nil:
+				k = append(k, "0")
+			case v == `\N`:
+				k = append(k, "1")
+			case v == "":
+				k = append(k, "2")
+			case v == `k|3\`:
+				k = append(k, "3")
+			default:
+				k = append(k, "bad")
+			}
+			continue
+		}
 		if !ok {
 			k = append(k, "missing")
 			continue
@@ -304,9 +319,9 @@ func c17ValTok(v any) string {
 	return strconv.FormatInt(int64(math.Round(f*float64(int64(1)<<40))), 10)
 }
 
-func c17ResultTok(idx string, m map[string]any, ncols, nouts int) string {
+func c17ResultTok(idx string, m map[string]any, ncols, nouts int, special bool) string {
 	var sb strings.Builder
-	sb.WriteString(idx + " " + c17KeyOfResult(m, ncols))
+	sb.WriteString(idx + " " + c17KeyOfResult(m, ncols, special))
 	for j := 0; j < nouts; j++ {
 		v, ok := m["o"+strconv.Itoa(j)]
 		if !ok {
@@ -330,6 +345,34 @@ type c17Spec struct {
 	ttl  int
 	age  []int
 	reap []bool
+	// special: the values of the first group column are, by group id, NULL (nil / missing column alternating),
+	// the text \N (the NULL marker of the key encoding), the empty string, a text with '|' and a trailing backslash
+	special bool
+}
+
+var c17SpecialVals = []string{"", `\N`, "", `k|3\`}
+
+// c17MakeSpecial rewrites the first group column of every row (group ids are 0..3)
+func c17MakeSpecial(s *c17Spec) {
+	if s.ncols == 0 {
+		return
+	}
+	s.special = true
+	for i := range s.rows {
+		g := s.rows[i].key[0]
+		switch g {
+		case 0:
+			if i%2 == 0 {
+				s.rows[i].data[c17Cols[0]] = nil
+			} else {
+				delete(s.rows[i].data, c17Cols[0])
+			}
+		case 2:
+			s.rows[i].data[c17Cols[0]] = ""
+		default:
+			s.rows[i].data[c17Cols[0]] = c17SpecialVals[g%4]
+		}
+	}
 }
 
 func c17Gen(rng *RNG, maxRows int) c17Spec {
@@ -513,7 +556,7 @@ func c17Stepped(s c17Spec) (bind string, obs string, nres int, err error) {
 					ob = append(ob, strconv.Itoa(i)+" notamap")
 					continue
 				}
-				ob = append(ob, c17ResultTok(strconv.Itoa(i), m, s.ncols, len(s.outs)))
+				ob = append(ob, c17ResultTok(strconv.Itoa(i), m, s.ncols, len(s.outs), s.special))
 				nres++
 			}
 		}
@@ -537,7 +580,7 @@ func c17E2E(s c17Spec, expect int) (string, error) {
 	ss.AddSyncSink(func(rs []map[string]any) {
 		mu.Lock()
 		for _, m := range rs {
-			ob = append(ob, c17ResultTok("?", m, s.ncols, len(s.outs)))
+			ob = append(ob, c17ResultTok("?", m, s.ncols, len(s.outs), s.special))
 		}
 		mu.Unlock()
 	})
@@ -696,7 +739,11 @@ func runC17(tier string, seed uint64, o *Out) error {
 	specs = append(specs, c17Corpus()...)
 	ncorpus := len(specs)
 	for i := 0; i < nStep; i++ {
-		specs = append(specs, c17Gen(rng, maxRows))
+		sp := c17Gen(rng, maxRows)
+		if i%5 == 2 {
+			c17MakeSpecial(&sp)
+		}
+		specs = append(specs, sp)
 	}
 	// WITH(STATETTL): an own random stream, so that the cases above are what they were before this family existed
 	trng := NewRNG(seed*0x100000001B3 + 0x5151)
@@ -755,6 +802,9 @@ func runC17(tier string, seed uint64, o *Out) error {
 		o.Count(fmt.Sprintf("groupcols_%d", s.ncols))
 		o.Count(fmt.Sprintf("pred_calls_%d", len(s.pred.refs(nil))))
 		o.Count("colnames_" + s.family)
+		if s.special {
+			o.Count("group_values_null_marker_empty_pipe_backslash")
+		}
 		// predicate calls over a column whose name has an upper-case letter, by binding
 		bs := strings.Fields(r.bind)
 		for j, c := range s.pred.refs(nil) {
